@@ -101,6 +101,7 @@ type HarnessSummary struct {
 	Unwind      int      `json:"loop_iterations_unrolled"`
 	WallS       float64  `json:"wall_s"`
 	Truncated   bool     `json:"truncated_by_path_cap"`
+	StopWhy     string   `json:"truncated_reason,omitempty"`
 }
 
 func main() {
@@ -196,6 +197,11 @@ func cmdCheck(args []string) int {
 	if *maxPaths > 0 {
 		capPaths = *maxPaths
 	}
+	// per-harness wall-clock budget: an exploration that blows up (e.g. on a modified tree) is cut and reported as truncated
+	budget := 240 * time.Second
+	if *tier == "thorough" {
+		budget = 40 * time.Minute
+	}
 	var sums []*HarnessSummary
 	var allViol []*Violation
 	funcs := map[string]bool{}
@@ -206,9 +212,10 @@ func cmdCheck(args []string) int {
 	totalStates, totalSteps := 0, 0
 	for _, h := range hs {
 		th := time.Now()
-		run := p.runHarness(h, *workers, capPaths, timeout, false)
+		run := p.runHarness(h, *workers, capPaths, timeout, false, budget)
 		s := &HarnessSummary{Name: h.Name(), Reached: map[string]int{}}
 		s.Truncated = run.stop
+		s.StopWhy = run.stopWhy
 		unsup := map[string]int{}
 		var wit []*PathResult
 		for _, r := range run.results {
@@ -411,6 +418,9 @@ func cmdCheck(args []string) int {
 		totUns += s.Unsupported
 		totLim += s.Limit
 		truncated = truncated || s.Truncated
+		if s.Truncated {
+			fmt.Printf("DEGRADED property=%s harness=%s exploration truncated (%s) after %d paths: not exhaustive\n", *prop, s.Name, s.StopWhy, s.Paths)
+		}
 		if len(s.Reached) == 0 {
 			vac[s.Name] = 0
 			fmt.Printf("DEGRADED property=%s vacuous=%s (no path reaches a vReach witness)\n", *prop, s.Name)
